@@ -43,7 +43,7 @@ pub fn run(obligation: &str) -> i32 {
     let mut rep = Rep::new();
     std::panic::set_hook(Box::new(|_| {}));   // panics of the code under contract are reported as outcomes, not printed
     if obligation.starts_with("C02.type_table") { gen_type_table(&mut rep); return rep.finish("GEN_type_table"); }
-    if ["C02.format_member_or_option", "C02.format_sequence_member", "C02.format_choice_option", "C02.boxed_type"].iter().any(|p| obligation.starts_with(p)) { gen_members(&mut rep); return rep.finish("GEN_members"); }
+    if ["C02.format_member_or_option", "C02.format_sequence_member", "C02.format_choice_option", "C02.boxed_type", "C02.format_default_methods"].iter().any(|p| obligation.starts_with(p)) { gen_members(&mut rep); gen_default_methods(&mut rep); return rep.finish("GEN_members"); }
     if obligation.starts_with("C14.format_enum_members") || obligation.starts_with("C05.format_enum_members") { gen_enum_members(&mut rep); return rep.finish("GEN_enum_members"); }
     if ["C05.generate_", "C03.generate_", "C05.member_extension", "C05.option_extension", "C02.generate_sequence_or_set_set_annotation", "C02.sequence_or_set_of_template"].iter().any(|p| obligation.starts_with(p)) { gen_blocks(&mut rep); gen_collections(&mut rep); return rep.finish("GEN_blocks"); }
     if ["C03.format_tag", "C06.width_to_tokens", "C04.format_range_annotations", "lemma.GEN_emission"].iter().any(|p| obligation.starts_with(p)) { gen_emission(&mut rep); return rep.finish("GEN_emission"); }
@@ -244,6 +244,41 @@ fn gen_members(rep: &mut Rep) {
         rep.check("C02.format_choice_option.fails_only_when_a_callee_fails", got.is_ok(), d);
         if let Ok(t) = &got { rep.check("C02.format_choice_option.one_variant_with_its_annotations_name_and_type", nows(t).ends_with(&format!("{}({base_ty}),", hook_enum_identifier(name))), d); }
     } } } } }
+}
+
+/// format_default_methods on the real crate: lists of 0..=4 components, each required / OPTIONAL / DEFAULT, of type BOOLEAN, INTEGER,
+/// SEQUENCE OF BOOLEAN or SET OF BOOLEAN; expected: one `fn <parent>_<name>_default() -> <type> { <value> }` per DEFAULT component, in order
+fn gen_default_methods(rep: &mut Rep) {
+    use rasn_compiler::verif_hooks::{hook_default_method_name, hook_format_default_methods};
+    let nows = |s: &str| s.chars().filter(|c| !c.is_whitespace()).collect::<String>();
+    let boolean = || ASN1Type::Boolean(Boolean { constraints: vec![] });
+    let of = |set: bool| { let o = SequenceOrSetOf { constraints: vec![], element_tag: None, element_type: Box::new(boolean()), is_recursive: false }; if set { ASN1Type::SetOf(o) } else { ASN1Type::SequenceOf(o) } };
+    // (type, default value, expected `-> T { V }` text)
+    let kinds: Vec<(ASN1Type, ASN1Value, &str)> = vec![
+        (boolean(), ASN1Value::Boolean(true), "->bool{true}"),
+        (ASN1Type::Integer(Integer { constraints: vec![], distinguished_values: None }), ASN1Value::LinkedIntValue { integer_type: IntegerType::Unbounded, value: 5 }, "->Integer{Integer::from(5i128)}"),
+        (of(false), ASN1Value::LinkedArrayLikeValue(vec![Box::new(ASN1Value::Boolean(true))]), "->SequenceOf<bool>{alloc::vec![true]}"),
+        (of(true), ASN1Value::LinkedArrayLikeValue(vec![Box::new(ASN1Value::Boolean(false))]), "->SetOf<bool>{SetOf::from_vec(alloc::vec![false])}"),
+    ];
+    let mut r = Lcg(2);
+    for case in 0..3000usize {
+        let n = case % 5;
+        let mut want = String::new();
+        let members: Vec<SequenceOrSetMember> = (0..n).map(|i| {
+            let (ty, v, txt) = &kinds[r.next(kinds.len())];
+            let name = ["a", "b-c", "type", "d"][i % 4].to_string() + &i.to_string();
+            let opt = r.next(3);
+            if opt == 2 { want += &format!("fn{}(){txt}", hook_default_method_name("Parent", &name)); }
+            SequenceOrSetMember { name, tag: None, ty: ty.clone(), optionality: match opt { 0 => Optionality::Required, 1 => Optionality::Optional, _ => Optionality::Default(v.clone()) }, is_recursive: false, constraints: vec![] }
+        }).collect();
+        let got = hook_format_default_methods(&members, "Parent");
+        let d = || format!("components=[{}] -> {}", members.iter().map(|m| format!("{} {}{}", m.name, m.ty.as_str(), match &m.optionality { Optionality::Required => "".to_string(), Optionality::Optional => " OPTIONAL".into(), Optionality::Default(v) => format!(" DEFAULT {v:?}") })).collect::<Vec<_>>().join(", "), match &got { Ok(t) => nows(t), Err(e) => format!("ERR {e}") });
+        rep.check("C02.format_default_methods.fails_only_when_a_type_or_value_cannot_be_rendered", got.is_ok(), d);
+        if let Ok(t) = &got {
+            rep.check("C02.format_default_methods.exactly_one_default_function_per_default_component_in_order_named_typed_and_valued_for_it", nows(t) == want, d);
+            rep.check("C02.format_default_methods.one_default_function_per_default_component_so_far", nows(t) == want, d);
+        }
+    }
 }
 
 /// Native replay of unit GEN_enum_members: Rasn::format_enum_members on the real crate; expected text built from the enumerals
